@@ -66,7 +66,14 @@ class AstGen:
             name = "nofn" if ty == "int" else "nopred"
         nargs = r.choice([0, 1, 1, 2, 2, 3])
         style = r.choice(["g", "m"]) if nargs >= 1 else "g"
-        args = [self.int_(d - 1) for _ in range(nargs)]
+        args = []
+        for _ in range(nargs):
+            if r.random() < 0.2:
+                # a non-int argument: the host must receive it with its CEL class
+                args.append(r.choice([["str", r.choice(["", "abc"])], ["bool", r.random() < 0.5],
+                                      ["ilist", [r.randrange(4) for _ in range(r.randrange(0, 3))]]]))
+            else:
+                args.append(self.int_(d - 1))
         return ["call", name, style, args]
 
     def shadow_call(self, ty: str) -> List[Any]:
@@ -307,8 +314,9 @@ def substitute(node: Any, prog: Dict[str, Any]) -> Any:
         fault = prog["faults"].get(name)
         if fault is not None and fault["when"] is None:
             return _strict(texts, err)
-        terms = list(texts)
-        if fault is not None and args and name not in SHADOW:
+        int_pos = [i for i, a in enumerate(args) if type_of(a) == "int"]
+        terms = [texts[i] for i in int_pos] + ["13"] * (len(args) - len(int_pos))
+        if fault is not None and args and name not in SHADOW and 0 in int_pos:
             # the stub fires when its first (int) argument equals `when`: a division that is by
             # zero exactly then makes the substitute fail the way a built-in does
             terms.append(f"0 * (1 / (({texts[0]}) == {fault['when']} ? 0 : 1))")
@@ -518,9 +526,11 @@ class Model:
             return ["BoolType", not vals[0][1].startswith(vals[1][1])]
         if name == "matches":
             return ["BoolType", len(vals[0][1]) == len(vals[1][1])]
+        ints = sum(v[1] for v in vals if v[0] == "IntType")
+        others = sum(1 for v in vals if v[0] != "IntType")
         if name in peers.INT_FUNCS:
-            return ["IntType", 1000 * peers.INT_FUNCS[name] + 7 * len(vals) + sum(v[1] for v in vals)]
-        return ["BoolType", (sum(v[1] for v in vals) + len(vals) + peers.BOOL_FUNCS[name]) % 2 == 0]
+            return ["IntType", 1000 * peers.INT_FUNCS[name] + 7 * len(vals) + ints + 13 * others]
+        return ["BoolType", (ints + 13 * others + len(vals) + peers.BOOL_FUNCS[name]) % 2 == 0]
 
 
 # --------------------------------------------------------------------------------------------
